@@ -100,6 +100,49 @@ Fixpoint chain_out (G : list trafo) (cs : list chan) : list chan :=
   | t :: r => chain_out r (tr_out t cs)
   end.
 
+(* ---- the channel sets the code computes on the way; None = the code raises KeyError ---- *)
+Definition csub (a b : list chan) : bool := forallb (fun c => cmem c b) a.
+Definition cdiff (a b : list chan) : list chan := filter (fun c => negb (cmem c b)) a.
+Definition cdisj (a b : list chan) : bool := forallb (fun c => negb (cmem c b)) a.
+Definition obind {A B} (x : option A) (f : A -> option B) : option B := match x with Some a => f a | None => None end.
+
+(* Transformation.get_output_channels (LinearTransformation insists on a superset of its inputs) *)
+Definition tr_outk (t : trafo) (cs : list chan) : option (list chan) :=
+  match t with
+  | TOffset _ | TScale _ => Some cs
+  | TParallel m => Some (cunion cs (map fst m))
+  | TLinear ins outs _ => if csub ins cs then Some (cunion (cdiff cs ins) outs) else None
+  end.
+(* Transformation.get_input_channels *)
+Definition tr_ink (t : trafo) (req : list chan) : option (list chan) :=
+  match t with
+  | TOffset _ | TScale _ => Some req
+  | TParallel m => Some (cdiff req (map fst m))
+  | TLinear ins outs _ =>
+      let fwd := cdiff req outs in
+      if negb (cdisj fwd ins) then None                     (* KeyError('Is input channel') *)
+      else if cdisj req outs then Some req else Some (cunion fwd ins)
+  end.
+(* keys of Transformation.__call__(data): LinearTransformation forwards when none of its inputs is present, raises
+   KeyError('Invalid input channels') when only some are *)
+Definition tr_callk (t : trafo) (data : list chan) : option (list chan) :=
+  match t with
+  | TOffset _ | TScale _ => Some data
+  | TParallel m => Some (cunion data (map fst m))
+  | TLinear ins outs _ =>
+      if cdisj data ins then Some data
+      else if csub ins data then Some (cunion (cdiff data ins) outs) else None
+  end.
+Fixpoint chain_outk (G : list trafo) (cs : list chan) : option (list chan) :=
+  match G with [] => Some cs | t :: r => obind (tr_outk t cs) (chain_outk r) end.
+Fixpoint chain_ink (G : list trafo) (req : list chan) : option (list chan) :=      (* reversed(transformations) *)
+  match G with [] => Some req | t :: r => obind (chain_ink r req) (tr_ink t) end.
+Fixpoint chain_callk (G : list trafo) (data : list chan) : option (list chan) :=
+  match G with [] => Some data | t :: r => obind (tr_callk t data) (chain_callk r) end.
+Fixpoint ninsert (x : chan) (l : list chan) : list chan :=
+  match l with [] => [x] | y :: r => if N.leb x y then x :: l else y :: ninsert x r end.
+Definition nsort (l : list chan) : list chan := fold_right ninsert [] l.
+
 (* ---------------------------------------------------------------------------------------------------------------- *)
 (* waveforms *)
 Inductive interp := IHold | ILinear | IJump.
@@ -107,7 +150,8 @@ Definition entry := (Z * Q * interp)%type.          (* time, value, strategy use
 
 Inductive chdef :=
 | CConst (v : oq)                                    (* ConstantWaveform *)
-| CTable (es : list entry).                          (* TableWaveform *)
+| CTable (es : list entry)                           (* TableWaveform *)
+| CFun (a b : Q).                                    (* FunctionWaveform of the affine expression a*t + b, a <> 0 *)
 
 Definition interp_val (e1 e2 : entry) (t : Z) : Q :=
   let '(t1, v1, _) := e1 in
@@ -136,6 +180,7 @@ Definition chdef_sample (d : chdef) (t : Z) : oq :=
   match d with
   | CConst v => v
   | CTable es => table_sample es t
+  | CFun a b => Some (Qred (a * inject_Z t + b))
   end.
 
 Inductive wf :=
@@ -185,7 +230,7 @@ Fixpoint all_const (chs : list (chan * chdef)) : option (list (chan * oq)) :=
   match chs with
   | [] => Some []
   | (c, CConst v) :: r => option_map (cons (c, v)) (all_const r)
-  | (_, CTable _) :: _ => None
+  | (_, CTable _) :: _ | (_, CFun _ _) :: _ => None
   end.
 (* RepetitionWaveform.constant_value_dict delegates to its body, but from_repetition_count never builds a
    RepetitionWaveform over a constant body, so that delegation is unreachable here and WRep answers None *)
@@ -210,11 +255,90 @@ Definition from_transformation (w : wf) (G : list trafo) : wf :=
   match cvd w with
   | None => WTrans w G
   | Some vals =>
-      let f := fun c => match alookup c vals with Some v => v | None => None end in
-      mk_const (wdur w) (map (fun c => (c, chain_apply G f c)) (chain_out G (map fst vals)))
+      match chain_callk G (map fst vals) with
+      | None => WTrans w G    (* transformation(0., constant_values) raises KeyError: kept as a waveform whose use
+                                 raises (wf_raises below) *)
+      | Some _ =>
+          let f := fun c => match alookup c vals with Some v => v | None => None end in
+          mk_const (wdur w) (map (fun c => (c, chain_apply G f c)) (chain_out G (map fst vals)))
+      end
   end.
 Definition with_global (w : wf) (G : list trafo) : wf :=
   match G with [] => w | _ => from_transformation w G end.
+
+(* Waveform.constant_value(channel): None = the call raises KeyError, Some None = not known to be constant,
+   Some (Some v) = constant v.  (ReversedWaveform does not override it.) *)
+Fixpoint cvalue (w : wf) (c : chan) : option (option oq) :=
+  match w with
+  | WAtom _ chs => match alookup c chs with
+                   | Some (CConst v) => Some (Some v)
+                   | Some _ => Some None
+                   | None => None
+                   end
+  | WSeq ws =>
+      (fix go (l : list wf) (v : option oq) : option (option oq) :=
+         match l with
+         | [] => Some v
+         | x :: r => match cvalue x c with
+                     | None => None
+                     | Some None => Some None
+                     | Some (Some a) => match v with
+                                        | None => go r (Some a)
+                                        | Some b => if oq_eqb a b then go r v else Some None
+                                        end
+                     end
+         end) ws None
+  | WRep b _ => cvalue b c
+  | WRev _ => Some None
+  | WTrans b G =>
+      match chain_ink G [c] with
+      | None => None
+      | Some ins =>
+          let vals := map (fun k => (k, cvalue b k)) ins in
+          if existsb (fun kv => match snd kv with None => true | _ => false end) vals then None
+          else if existsb (fun kv => match snd kv with Some None => true | _ => false end) vals then Some None
+          else match chain_callk G ins with
+               | None => None
+               | Some _ =>
+                   let f := fun k => match alookup k vals with Some (Some (Some v)) => v | _ => None end in
+                   Some (Some (chain_apply G f c))
+               end
+      end
+  end.
+
+(* does looking at a leaf waveform the way an upload does raise KeyError?  (defined_channels, then get_sampled for
+   every channel in sorted order on one time array: constant_value first, unsafe_sample when that is None.)  Only a
+   LinearTransformation that finds some but not all of its inputs raises; in a compiled program such a transformation
+   only occurs in the outermost TransformingWaveform of a leaf. *)
+Fixpoint look_scan (w : wf) (G : list trafo) (todo cache : list chan) : bool :=
+  match todo with
+  | [] => false
+  | c :: r =>
+      match cvalue w c with
+      | None => true
+      | Some (Some _) => look_scan w G r cache
+      | Some None =>
+          if cmem c cache then look_scan w G r cache
+          else match obind (chain_ink G [c]) (chain_callk G) with
+               | None => true
+               | Some outk => look_scan w G r (cache ++ outk)
+               end
+      end
+  end.
+Definition wf_raises (w : wf) : bool :=
+  match w with
+  | WTrans b G =>
+      match chain_outk G (wchans b) with
+      | None => true
+      | Some outs => look_scan w G (nsort outs) []
+      end
+  | WRev (WTrans b G) =>        (* ReversedWaveform: no constant_value, a new time array (so an empty cache) per channel *)
+      match chain_outk G (wchans b) with
+      | None => true
+      | Some outs => existsb (fun c => match obind (chain_ink G [c]) (chain_callk G) with None => true | Some _ => false end) outs
+      end
+  | _ => false
+  end.
 
 (* SequenceWaveform.from_sequence *)
 Fixpoint seq_const (cv : option (list (chan * oq))) (ws : list wf) : option (list (chan * oq)) :=
@@ -361,20 +485,22 @@ Inductive aop := AAdd | ASub | AMul | ADiv.
 Inductive scalar := SAll (v : Q) | SMap (m : list (chan * Q)).
 
 Inductive pt :=
-| PAtom (id : N) (meas : list win) (d : Z) (chs : list (chan * chdef))   (* ConstantPT / TablePT *)
+| PAtom (id : N) (meas : list win) (d : Z) (chs : list (chan * chdef))   (* Constant/Table/FunctionPT, AtomicMultiChannelPT of them *)
 | PSeq (id : N) (meas : list win) (subs : list pt)                       (* SequencePT, unrolled ForLoopPT *)
 | PRep (id : N) (meas : list win) (n : nat) (body : pt)                  (* RepetitionPT *)
-| PMap (id : N) (ren : list (chan * chan)) (sub : pt)                    (* MappingPT (channels) *)
+| PMap (id : N) (ren : list (chan * chan)) (mren : list (N * N)) (sub : pt)   (* MappingPT (channels, measurement names) *)
 | PPar (id : N) (ov : list (chan * Q)) (sub : pt)                        (* ParallelChannelPT *)
 | PArith (id : N) (op : aop) (pt_left : bool) (s : scalar) (sub : pt)    (* ArithmeticPT with a scalar *)
 | PRev (id : N) (sub : pt).                                              (* TimeReversalPT *)
 
 Definition pid (p : pt) : N :=
   match p with
-  | PAtom i _ _ _ | PSeq i _ _ | PRep i _ _ _ | PMap i _ _ | PPar i _ _ | PArith i _ _ _ _ | PRev i _ => i
+  | PAtom i _ _ _ | PSeq i _ _ | PRep i _ _ _ | PMap i _ _ _ | PPar i _ _ | PArith i _ _ _ _ | PRev i _ => i
   end.
 
 Definition ren_get (ren : list (chan * chan)) (c : chan) : chan := match alookup c ren with Some x => x | None => c end.
+(* MeasurementDefiner.get_measurement_windows: the declared windows under the measurement mapping that arrives *)
+Definition mwins (mm : N -> N) (m : list win) : list win := map (fun w : win => let '(n, b, l) := w in (mm n, b, l)) m.
 
 (* defined_channels *)
 Fixpoint pt_chans (p : pt) : list chan :=
@@ -384,7 +510,7 @@ Fixpoint pt_chans (p : pt) : list chan :=
       (fix first (l : list pt) : list chan :=
          match l with [] => [] | s :: r => match pt_chans s with [] => first r | cs => cs end end) subs
   | PRep _ _ _ b => pt_chans b
-  | PMap _ ren s => map (ren_get ren) (pt_chans s)
+  | PMap _ ren _ s => map (ren_get ren) (pt_chans s)
   | PPar _ ov s => cunion (pt_chans s) (map fst ov)
   | PArith _ _ _ _ s => pt_chans s
   | PRev _ s => pt_chans s
@@ -416,9 +542,9 @@ Definition arith_steps (op : aop) (pt_left : bool) (s : scalar) (defch : list ch
 Definition in_S (S : list N) (i : N) : bool := existsb (N.eqb i) S.
 
 (* PulseTemplate._create_program around a function `rec` that is the node's _internal_create_program *)
-Definition create (S : list N) (rec : pt -> (chan -> chan) -> list trafo -> bst -> bst)
-           (p : pt) (cm : chan -> chan) (G : list trafo) (b : bst) : bst :=
-  if in_S S (pid p) then new_subprogram b G (rec p cm [] b_empty) else rec p cm G b.
+Definition create (S : list N) (rec : pt -> (chan -> chan) -> (N -> N) -> list trafo -> bst -> bst)
+           (p : pt) (cm : chan -> chan) (mm : N -> N) (G : list trafo) (b : bst) : bst :=
+  if in_S S (pid p) then new_subprogram b G (rec p cm mm [] b_empty) else rec p cm mm G b.
 
 (* AtomicPulseTemplate._internal_create_program for the waveform w built by build_waveform *)
 Definition play_atom (b : bst) (meas : list win) (w : wf) (G : list trafo) : bst :=
@@ -429,28 +555,28 @@ Definition play_atom (b : bst) (meas : list win) (w : wf) (G : list trafo) : bst
               end in
   b_append (b_measure b meas) (Leaf leaf).
 
-(* _internal_create_program of every template class *)
-Fixpoint internal (S : list N) (p : pt) (cm : chan -> chan) (G : list trafo) (b : bst) : bst :=
+(* _internal_create_program of every template class; cm / mm = channel / measurement mapping that arrives *)
+Fixpoint internal (S : list N) (p : pt) (cm : chan -> chan) (mm : N -> N) (G : list trafo) (b : bst) : bst :=
   match p with
   | PAtom _ meas d chs =>
       if (d <=? 0) || match chs with [] => true | _ => false end then b
-      else play_atom b meas (WAtom d (map (fun cd => (cm (fst cd), snd cd)) chs)) G
+      else play_atom b (mwins mm meas) (WAtom d (map (fun cd => (cm (fst cd), snd cd)) chs)) G
   | PSeq _ meas subs =>
-      b_pop (fold_left (fun b' s => create S (internal S) s cm G b') subs (b_push b meas))
+      b_pop (fold_left (fun b' s => create S (internal S) s cm mm G b') subs (b_push b (mwins mm meas)))
   | PRep _ meas n body =>
       match n with
       | O => b
-      | _ => let inner := create S (internal S) body cm G b_empty in
+      | _ => let inner := create S (internal S) body cm mm G b_empty in
              match b_ch inner with
              | [] => b
-             | _ => b_append (b_measure b meas) (Node n (b_meas inner) (b_ch inner))
+             | _ => b_append (b_measure b (mwins mm meas)) (Node n (b_meas inner) (b_ch inner))
              end
       end
-  | PMap _ ren s => create S (internal S) s (fun c => cm (ren_get ren c)) G b
-  | PPar _ ov s => create S (internal S) s cm (G ++ [TParallel (map (fun cv => (cm (fst cv), snd cv)) ov)]) b
-  | PArith _ op l sc s => create S (internal S) s cm (arith_steps op l sc (pt_chans s) cm ++ G) b
+  | PMap _ ren mren s => create S (internal S) s (fun c => cm (ren_get ren c)) (fun n => mm (ren_get mren n)) G b
+  | PPar _ ov s => create S (internal S) s cm mm (G ++ [TParallel (map (fun cv => (cm (fst cv), snd cv)) ov)]) b
+  | PArith _ op l sc s => create S (internal S) s cm mm (arith_steps op l sc (pt_chans s) cm ++ G) b
   | PRev _ s =>
-      let inner := internal S s cm G b_empty in      (* NOT `create`: the inner template's own flag is ignored *)
+      let inner := internal S s cm mm G b_empty in   (* NOT `create`: the inner template's own flag is ignored *)
       match b_program inner with
       | None => b
       | Some prog => b_append b (reverse_loop prog)
@@ -459,4 +585,4 @@ Fixpoint internal (S : list N) (p : pt) (cm : chan -> chan) (G : list trafo) (b 
 
 (* PulseTemplate.create_program(to_single_waveform = S, global_transformation = G) *)
 Definition compile (p : pt) (S : list N) (G : list trafo) : option loop :=
-  b_program (create S (internal S) p (fun c => c) G b_empty).
+  b_program (create S (internal S) p (fun c => c) (fun n => n) G b_empty).
